@@ -231,17 +231,20 @@ def generate(rng, tier, scale, **focus):
         if rng.random() < 0.06:
             yield gen_cyclic(rng)
             continue
-        g = Gen(rng, {'extra': ['wrap', 'wrap', 'wrap', 'probe', 'probe', 'modeprobe', 'fillshape', 'switch', 'and'],
+        g = Gen(rng, {'extra': ['wrap', 'wrap', 'wrap', 'probe', 'probe', 'modeprobe', 'fillshape', 'switch', 'and', 'lazy'],
                       'scope': False})
         t = g.target()
         depth = rng.choice([1, 2, 2, 3]) if tier == 'quick' else rng.choice([2, 3, 3, 4])
         p = rng.random()
-        if p < 0.12:
+        if p < 0.08:
+            # a lazy stream built under a wrapper at a non-final chain position, consumed by a later step
+            spec = g.s_lazy(t, depth, top=True)
+        elif p < 0.2:
             t = Gen.rows_target(rng)
             spec = g.s_argshape(t, 2)
-        elif p < 0.25:
+        elif p < 0.32:
             spec = g.s_fillshape(t, rng.choice([1, 2, 3]))
-        elif p < 0.45:
+        elif p < 0.5:
             # a wrapper at a chosen step of a chain, followed / preceded by mode-sensitive probes
             steps = []
             for _ in range(rng.randint(1, 4)):
